@@ -49,7 +49,7 @@ class C20(Prop):
     assumptions = ["float sums: |f(layout1) - f(layout2)| <= 2 gamma_(n+13) sum|terms| (Num/SumF64.v nd_sum_layout_indep), applied with a x128 safety factor to composite statistics"]
 
     def gen(self, tier, rng):
-        reps = 30 if tier == "quick" else 300
+        reps = 30 if tier == "quick" else 1200
         for g in range(reps):
             nd = rng.range(1, 4)
             shape = [rng.range(1, 4) for _ in range(nd)]
